@@ -139,9 +139,13 @@ func (b *BFT) AddDSE(e *DoubleSignEvidences, ev *DoubleSignEvidence) (err lib.Er
 	if err = ev.CheckBasic(); err != nil {
 		return
 	}
-	// nullify the block and results as they are unnecessary bloat in the message for this purpose
-	ev.VoteA.Block, ev.VoteA.Results = nil, nil
-	ev.VoteB.Block, ev.VoteB.Results = nil, nil
+	// omit the block and results as they are unnecessary bloat in the message for this purpose
+	// NOTE: work on copies - the caller's certificates stay untouched: addDSEByPartialQC() passes the certificates of the stored
+	// proposals, among them the COMMIT certificate the replica is about to hand to the controller (and the locked HighQC)
+	withoutProposal := func(qc *QC) *QC {
+		return &QC{Header: qc.Header, BlockHash: qc.BlockHash, ResultsHash: qc.ResultsHash, ProposerKey: qc.ProposerKey, Signature: qc.Signature}
+	}
+	ev = &DoubleSignEvidence{VoteA: withoutProposal(ev.VoteA), VoteB: withoutProposal(ev.VoteB)}
 	// process the Double Sign Evidence and save the double signers
 	badSigners, err := b.ProcessDSE(ev)
 	if err != nil {
